@@ -38,6 +38,16 @@ func (w *World) Seq() int64 { return w.seq.Add(1) }
 // Now is the (virtual, inside a bubble) time since the world was created.
 func (w *World) Now() time.Duration { return time.Since(w.start) }
 
+// Settle waits until every other goroutine of the bubble is durably blocked
+// (exact quiescence). Outside a bubble it only yields.
+func (w *World) Settle() {
+	if w.C != nil && w.C.Bubble {
+		synctest.Wait()
+		return
+	}
+	Yield(50)
+}
+
 // NodeOpt customises a node before Run.
 type NodeOpt func(cfg *centrifuge.Config)
 
@@ -394,6 +404,12 @@ func (c *Conn) Unsubscribe(ch string) uint32 {
 	id := c.NextID()
 	c.Do(&protocol.Command{Id: id, Unsubscribe: &protocol.UnsubscribeRequest{Channel: ch}})
 	return id
+}
+
+// WaitReply settles the world and returns the reply with the given id, if written.
+func (c *Conn) WaitReply(id uint32) (Frame, bool) {
+	c.W.Settle()
+	return c.ReplyFor(id)
 }
 
 // ReplyFor returns the reply frame with the given command id, if written.
